@@ -238,6 +238,16 @@ func init() {
 			return buildZip([]zmember{{name: "META-INF/MANIFEST.MF", data: []byte("Manifest-Version: 1.0\r\n" + content), method: zip.Deflate}})
 		}
 	}
+	// rust/cargotoml: dependency tables whose version / rev / git are not strings (UnmarshalTOML's getString errors)
+	genericDocs["own-cargotoml-version-int"] = lit("[package]\nname = \"a\"\nversion = \"1.0.0\"\n[dependencies]\nb = { version = 1 }\n")
+	genericDocs["own-cargotoml-rev-int"] = lit("[package]\nname = \"a\"\nversion = \"1.0.0\"\n[dependencies]\nb = { git = \"https://x/y\", rev = 2 }\n")
+	genericDocs["own-cargotoml-git-int"] = lit("[package]\nname = \"a\"\nversion = \"1.0.0\"\n[dependencies]\nb = { git = 3, tag = [1] }\nc = 4\n")
+	// os/pacman: a line beyond bufio.Scanner's token limit inside the %DEPENDS% block / as the value of %NAME%
+	genericDocs["own-pacman-longdep"] = lit("%NAME%\nzlib\n\n%VERSION%\n1.3.1-2\n\n%DEPENDS%\nglibc\n" + strings.Repeat("a", 70000) + "\n\n")
+	genericDocs["own-pacman-longname"] = lit("%NAME%\n" + strings.Repeat("a", 70000) + "\n\n%VERSION%\n1\n")
+	genericDocs["own-pacman-nodepend-end"] = lit("%NAME%\nzlib\n\n%VERSION%\n1.3.1-2\n\n%DEPENDS%\nglibc")
+	// python/requirements: comparison operators in odd places (getLowestVersion)
+	genericDocs["own-req-operators"] = lit("a>=1,<2\nb==\nc===1==2\nd~=1.0,!=1.1\ne<1,>0\n==1\nf>=\ng==1;python_version<'3'\nh @ file:///x\n")
 	for k, v := range map[string]string{
 		"bundle":        "Created-By: Apache Maven Bundle Plugin\r\nBundle-SymbolicName: com.google.guava.failureaccess\r\nBundle-Version: 1.0.1\r\nImplementation-Vendor-Id: com.google.guava\r\n",
 		"bundle-noname": "Created-By: Apache Maven Bundle Plugin\r\nBundle-Version: 1.0.1\r\nImplementation-Vendor-Id: com.google.guava\r\n",
